@@ -214,6 +214,23 @@ func Main(t *testing.T, units ...Unit) {
 		}
 	}
 
+	// ---- child mode: re-execute one recorded tape (real-kill validation of C10) -------------
+	if ct := os.Getenv("VERIF_CHILD_TAPE"); ct != "" {
+		b, err := os.ReadFile(ct)
+		if err != nil {
+			t.Fatalf("child tape: %v", err)
+		}
+		var vals []uint32
+		if err := json.Unmarshal(b, &vals); err != nil {
+			t.Fatalf("child tape: %v", err)
+		}
+		r := newRun(ReplayTape(vals), 0, 0, true)
+		r.Replay = true
+		r.knownSet = nil
+		execRun(u, r)
+		return
+	}
+
 	// ---- replay mode -------------------------------------------------------
 	if rp := os.Getenv("VERIF_REPLAY"); rp != "" {
 		b, err := os.ReadFile(rp)
